@@ -132,6 +132,8 @@ export function genFileSet(rng, opts = {}) {
   const ctx = new GenCtx({ moduleNames, maxDepth: opts.maxDepth ?? 3, defNames, includes, allowSlot: opts.allowSlot ?? true, families: opts.families, tags: opts.tags, noCall: opts.noCall, exprCtx: opts.exprCtx, safeLists: opts.safeLists })
   const children = M.genNodes(rng, ctx, ctx.maxDepth, opts.maxTop ?? 4)
   files[mainPath] = { path: mainPath, imports: [], wxs: withModule ? [{ module: 'm', code: MODULE_CODE('m') }] : [], defs, children }
+  // file-level elements may be written anywhere between the top-level nodes
+  if (rng.bool(opts.scatter ?? 0.25)) M.scatterHoisted(rng, files[mainPath])
   return { files, scripts, main: mainPath }
 }
 
